@@ -38,6 +38,9 @@ def Marked (t : Net) (o : Node) (k : Node × Nat) (x : Node) : Prop := x = o ∨
 def CopyOf (o sq : Nat) (r : RAd) (e : Entry) : Prop :=
   e.kind = r.kind ∧ e.key = r.key ∧ e.origin = o ∧ sq ≤ e.seq
 
+/-- `e` is a presence route for agent `key` of origin `o` at least as recent as announcement `sq`. -/
+def CopyA (o sq key : Nat) (e : Entry) : Prop := e.key = key ∧ e.origin = o ∧ sq ≤ e.seq
+
 structure FrameInv (t : Net) (o sq : Nat) (L : List RAd) (f : Flight) : Prop where
   src : Marked t o (o, sq) f.src
   seenBy : ∀ y, y ∈ f.adv.seenBy → Marked t o (o, sq) y
@@ -89,6 +92,8 @@ structure Conv (lk : Node → Node → Bool) (n o sq : Nat) (L : List RAd) (t : 
     Marked t o (o, sq) p ∨ ∃ f, f ∈ t.flight ∧ keyOf f = (o, sq) ∧ f.src = x ∧ f.dst = p
   stored : ∀ x, (o, sq) ∈ (t.nodes x).seen → ∀ r, r ∈ L → r.kind ≠ 3 →
     ∃ e, e ∈ (t.nodes x).tab ∧ CopyOf o sq r e
+  storedA : ∀ x, (o, sq) ∈ (t.nodes x).seen → ∀ r, r ∈ L → r.kind = 3 →
+    ∃ e, e ∈ (t.nodes x).agents ∧ CopyA o sq r.key e
 
 /-! ### table copies survive later updates -/
 
@@ -183,6 +188,171 @@ theorem foldl_storeRoute_stores {self frm clock : Nat} {a : Adv} (hp : self ∉ 
         omega
     · exact ih _ r hr hk
 
+/-! ### the same for the agent-presence table -/
+
+theorem mem_insRev_of {x y : Entry} {l : List Entry} (h : y = x ∨ y ∈ l) : y ∈ insRev x l := by
+  induction l with
+  | nil =>
+    rcases h with h | h
+    · simp [insRev, h]
+    · cases h
+  | cons z t ih =>
+    unfold insRev
+    split
+    · rcases h with h | h
+      · exact List.mem_cons_of_mem _ (ih (Or.inl h))
+      · rcases List.mem_cons.1 h with h | h
+        · exact h ▸ List.mem_cons_self
+        · exact List.mem_cons_of_mem _ (ih (Or.inr h))
+    · rcases h with h | h
+      · exact h ▸ List.mem_cons_self
+      · exact List.mem_cons_of_mem _ h
+
+theorem mem_foldl_insRev_of {y : Entry} (l acc : List Entry) (h : y ∈ acc ∨ y ∈ l) :
+    y ∈ l.foldl (fun revPre x => insRev x revPre) acc := by
+  induction l generalizing acc with
+  | nil =>
+    rcases h with h | h
+    · exact h
+    · cases h
+  | cons x t ih =>
+    simp only [List.foldl_cons]
+    apply ih
+    rcases h with h | h
+    · exact Or.inl (mem_insRev_of (Or.inr h))
+    · rcases List.mem_cons.1 h with h | h
+      · exact Or.inl (mem_insRev_of (Or.inl h))
+      · exact Or.inr h
+
+theorem mem_sortIns_of {y : Entry} {l : List Entry} (h : y ∈ l) : y ∈ sortIns l := by
+  unfold sortIns
+  exact List.mem_reverse.2 (mem_foldl_insRev_of l [] (Or.inr h))
+
+theorem addAgentKey_keeps {e x : Entry} {l : List Entry} (hx : x ∈ l) :
+    x ∈ addAgentKey e l ∨ (sameAgentKey e x = true ∧ newer e x = true ∧ e ∈ addAgentKey e l) := by
+  induction l with
+  | nil => cases hx
+  | cons o t ih =>
+    unfold addAgentKey
+    by_cases hk : sameAgentKey e o = true
+    · rw [if_pos hk]
+      by_cases hn : newer e o = true
+      · rw [if_pos hn]
+        rcases List.mem_cons.1 hx with hx | hx
+        · subst hx; exact Or.inr ⟨hk, hn, List.mem_cons_self⟩
+        · exact Or.inl (List.mem_cons_of_mem _ hx)
+      · rw [if_neg hn]; exact Or.inl hx
+    · rw [if_neg hk]
+      rcases List.mem_cons.1 hx with hx | hx
+      · subst hx; exact Or.inl List.mem_cons_self
+      · rcases ih hx with h | ⟨h1, h2, h3⟩
+        · exact Or.inl (List.mem_cons_of_mem _ h)
+        · exact Or.inr ⟨h1, h2, List.mem_cons_of_mem _ h3⟩
+
+theorem addAgentKey_has (e : Entry) (l : List Entry) :
+    ∃ y, y ∈ addAgentKey e l ∧ sameAgentKey e y = true ∧ (y = e ∨ newer e y = false) := by
+  induction l with
+  | nil => exact ⟨e, by simp [addAgentKey], by simp [sameAgentKey], Or.inl rfl⟩
+  | cons o t ih =>
+    unfold addAgentKey
+    by_cases hk : sameAgentKey e o = true
+    · rw [if_pos hk]
+      by_cases hn : newer e o = true
+      · rw [if_pos hn]; exact ⟨e, List.mem_cons_self, by simp [sameAgentKey], Or.inl rfl⟩
+      · rw [if_neg hn]; exact ⟨o, List.mem_cons_self, hk, Or.inr (by simpa using hn)⟩
+    · rw [if_neg hk]
+      obtain ⟨y, hy, h1, h2⟩ := ih
+      exact ⟨y, List.mem_cons_of_mem _ hy, h1, h2⟩
+
+theorem newer_seq_le {e x : Entry} (h : newer e x = true) : x.seq ≤ e.seq := by
+  simp only [newer, Bool.or_eq_true, decide_eq_true_eq, Bool.and_eq_true] at h
+  rcases h with h | h <;> omega
+
+theorem not_newer_seq_le {e y : Entry} (h : newer e y = false) : e.seq ≤ y.seq := by
+  simp only [newer, Bool.or_eq_false_iff, decide_eq_false_iff_not, Bool.and_eq_false_iff] at h
+  have : ¬ e.seq > y.seq := by simpa using h.1
+  omega
+
+theorem addAgent_keeps_copy {e : Entry} {ag : List Entry} {o sq key : Nat}
+    (h : ∃ x, x ∈ ag ∧ CopyA o sq key x) : ∃ x, x ∈ addAgent e ag ∧ CopyA o sq key x := by
+  obtain ⟨x, hx, hc⟩ := h
+  unfold addAgent
+  by_cases hk : x.key = e.key
+  · have hsub : x ∈ ag.filter (fun o => o.key == e.key) := List.mem_filter.2 ⟨hx, by simpa using hk⟩
+    rcases addAgentKey_keeps (e := e) hsub with h | ⟨h1, h2, h3⟩
+    · exact ⟨x, List.mem_append_right _ (mem_sortIns_of h), hc⟩
+    · refine ⟨e, List.mem_append_right _ (mem_sortIns_of h3), ?_⟩
+      simp only [sameAgentKey, Bool.and_eq_true, decide_eq_true_eq] at h1
+      obtain ⟨c1, c2, c3⟩ := hc
+      exact ⟨hk.symm.trans c1, h1.1.symm.trans c2, Nat.le_trans c3 (newer_seq_le h2)⟩
+  · exact ⟨x, List.mem_append_left _ (List.mem_filter.2 ⟨hx, by simpa using hk⟩), hc⟩
+
+theorem addAgent_has (e : Entry) (ag : List Entry) :
+    ∃ y, y ∈ addAgent e ag ∧ CopyA e.origin e.seq e.key y := by
+  obtain ⟨y, hy, hsk, hyn⟩ := addAgentKey_has e (ag.filter (fun o => o.key == e.key))
+  refine ⟨y, by unfold addAgent; exact List.mem_append_right _ (mem_sortIns_of hy), ?_⟩
+  simp only [sameAgentKey, Bool.and_eq_true, decide_eq_true_eq] at hsk
+  rcases hyn with rfl | hn
+  · exact ⟨rfl, rfl, Nat.le_refl _⟩
+  · have hmem : y = e ∨ y ∈ ag.filter (fun o => o.key == e.key) := mem_addAgentKey hy
+    rcases hmem with rfl | hmem
+    · exact ⟨rfl, rfl, Nat.le_refl _⟩
+    · have hkey : y.key = e.key := by simpa using (List.mem_filter.1 hmem).2
+      exact ⟨hkey, hsk.1, not_newer_seq_le hn⟩
+
+theorem storeRoute_keeps_copyA {self frm clock : Nat} {a : Adv} {st : NodeSt} {r0 : RAd} {o sq key : Nat}
+    (h : ∃ e, e ∈ st.agents ∧ CopyA o sq key e) :
+    ∃ e, e ∈ (storeRoute self frm a clock st r0).agents ∧ CopyA o sq key e := by
+  unfold storeRoute
+  split
+  · exact h
+  · split
+    · exact addAgent_keeps_copy h
+    · exact h
+
+theorem foldl_storeRoute_keeps_copyA {self frm clock : Nat} {a : Adv} (rs : List RAd) (st : NodeSt)
+    {o sq key : Nat} (h : ∃ e, e ∈ st.agents ∧ CopyA o sq key e) :
+    ∃ e, e ∈ (rs.foldl (storeRoute self frm a clock) st).agents ∧ CopyA o sq key e := by
+  induction rs generalizing st with
+  | nil => exact h
+  | cons r0 t ih => simp only [List.foldl_cons]; exact ih _ (storeRoute_keeps_copyA h)
+
+theorem handle_keeps_copyA {mh : Nat} {peers : List Node} {self frm clock : Nat} {a : Adv} {st : NodeSt}
+    {o sq key : Nat} (h : ∃ e, e ∈ st.agents ∧ CopyA o sq key e) :
+    ∃ e, e ∈ (handle mh peers self frm clock a st).1.agents ∧ CopyA o sq key e := by
+  unfold handle
+  split
+  · exact h
+  · dsimp only
+    split
+    · exact h
+    · split
+      · exact h
+      · split
+        · exact h
+        · have := foldl_storeRoute_keeps_copyA (self := self) (frm := frm) (clock := clock) (a := a) a.routes
+            { st with seen := (a.origin, a.seq) :: st.seen } h
+          split
+          · exact this
+          · split <;> exact this
+
+theorem foldl_storeRoute_storesA {self frm clock : Nat} {a : Adv} (hp : self ∉ a.path)
+    (rs : List RAd) (st : NodeSt) :
+    ∀ r, r ∈ rs → r.kind = 3 →
+      ∃ e, e ∈ (rs.foldl (storeRoute self frm a clock) st).agents ∧ CopyA a.origin a.seq r.key e := by
+  induction rs generalizing st with
+  | nil => intro r hr; cases hr
+  | cons r0 t ih =>
+    intro r hr hk
+    simp only [List.foldl_cons]
+    rcases List.mem_cons.1 hr with hr | hr
+    · subst hr
+      apply foldl_storeRoute_keeps_copyA
+      unfold storeRoute
+      rw [if_neg hp, if_pos hk]
+      exact addAgent_has (mkEntry r a frm clock) st.agents
+    · exact ih _ r hr hk
+
 /-- `handle` when the advertisement is accepted and there is no hop limit. -/
 theorem handle_new_eq {peers : List Node} {self frm clock : Nat} {a : Adv} {st : NodeSt}
     (hwd : a.wd = false) (hseen : (a.origin, a.seq) ∉ st.seen) (hsb : self ∉ a.seenBy)
@@ -261,6 +431,14 @@ theorem conv_process {lk : Node → Node → Bool} {n o sq : Nat} {L : List RAd}
     split
     · rename_i hxb; subst hxb; exact handle_keeps_copy hfwd h0
     · exact h0
+  have hstored_oldA : ∀ x, (o, sq) ∈ (t.nodes x).seen → ∀ r, r ∈ L → r.kind = 3 →
+      ∃ e, e ∈ ((process { t with flight := fl } a b f.adv).1.nodes x).agents ∧ CopyA o sq r.key e := by
+    intro x hx r hr hk
+    have h0 := hC.storedA x hx r hr hk
+    rw [process_nodes]
+    split
+    · rename_i hxb; subst hxb; exact handle_keeps_copyA h0
+    · exact h0
   by_cases hkey : keyOf f = (o, sq)
   · -- a frame of our announcement
     have hFI := hC.frames f hf hkey
@@ -278,7 +456,7 @@ theorem conv_process {lk : Node → Node → Bool} {n o sq : Nat} {L : List RAd}
         rw [process_flight, hh]; simp
       have hmk : ∀ x, Marked (process { t with flight := fl } a b f.adv).1 o (o, sq) x ↔ Marked t o (o, sq) x := by
         intro x; unfold Marked; rw [hnodes']
-      refine ⟨hC.n_eq, hC.mh, hC.links, by rw [hnodes']; exact hC.ctr, hnowd', ?_, ?_, ?_⟩
+      refine ⟨hC.n_eq, hC.mh, hC.links, by rw [hnodes']; exact hC.ctr, hnowd', ?_, ?_, ?_, ?_⟩
       · intro g hg hgk
         rw [hflight'] at hg
         have := hC.frames g (hsub g hg) hgk
@@ -293,6 +471,9 @@ theorem conv_process {lk : Node → Node → Bool} {n o sq : Nat} {L : List RAd}
       · intro x hx r hr hk
         rw [hnodes'] at hx ⊢
         exact hC.stored x hx r hr hk
+      · intro x hx r hr hk
+        rw [hnodes'] at hx ⊢
+        exact hC.storedA x hx r hr hk
     · -- first handling at b: b stores and forwards
       have hsb : b ∉ f.adv.seenBy := hdst ▸ hFI.dst
       have hseen0 : (f.adv.origin, f.adv.seq) ∉ (t.nodes b).seen := by rw [hk']; exact hcached
@@ -333,7 +514,7 @@ theorem conv_process {lk : Node → Node → Bool} {n o sq : Nat} {L : List RAd}
         obtain ⟨p, hp, rfl⟩ := hg
         obtain ⟨hp1, hp2, hp3, hp4⟩ := mem_fwdTargets hp
         exact ⟨rfl, rfl, hp1, hp2, hp3, hp4⟩
-      refine ⟨hC.n_eq, hC.mh, hC.links, hctr, hnowd', ?_, ?_, ?_⟩
+      refine ⟨hC.n_eq, hC.mh, hC.links, hctr, hnowd', ?_, ?_, ?_, ?_⟩
       · intro g hg hgk
         rw [hproc_flight] at hg
         rcases List.mem_append.1 hg with hg | hg
@@ -428,6 +609,19 @@ theorem conv_process {lk : Node → Node → Bool} {n o sq : Nat} {L : List RAd}
           simp only [Prod.mk.injEq] at hk'
           obtain ⟨h1, h2, h3, h4⟩ := hc
           exact ⟨h1.trans hk1, h2.trans hk2, h3.trans hk'.1, by rw [← hk'.2]; exact h4⟩
+      · intro x hx r hr hk
+        rcases hseen_inv x _ hx with h | ⟨hxb, _⟩
+        · exact hstored_oldA x h r hr hk
+        · subst hxb
+          obtain ⟨r', hr', hk1, hk2⟩ := hFI.routes r hr
+          have hbp : x ∉ f.adv.path := fun h => hsb (hFI.path x h)
+          have hk3 : r'.kind = 3 := by rw [hk1]; exact hk
+          obtain ⟨e, he, hc⟩ := foldl_storeRoute_storesA (frm := a) (clock := t.clock) hbp f.adv.routes
+            { t.nodes x with seen := (f.adv.origin, f.adv.seq) :: (t.nodes x).seen } r' hr' hk3
+          refine ⟨e, by rw [hproc_nodes_b]; exact he, ?_⟩
+          simp only [Prod.mk.injEq] at hk'
+          obtain ⟨h1, h2, h3⟩ := hc
+          exact ⟨h1.trans hk2, h2.trans hk'.1, by rw [← hk'.2]; exact h3⟩
   · -- a frame of another announcement: our frames, our marks are untouched
     have hmk : ∀ x, Marked (process { t with flight := fl } a b f.adv).1 o (o, sq) x ↔ Marked t o (o, sq) x := by
       intro x
@@ -451,7 +645,7 @@ theorem conv_process {lk : Node → Node → Bool} {n o sq : Nat} {L : List RAd}
         rw [← hgk]
         subst this
         simp only [keyOf, fwdAdv_origin, fwdAdv_seq]
-    refine ⟨hC.n_eq, hC.mh, hC.links, hctr, hnowd', ?_, ?_, ?_⟩
+    refine ⟨hC.n_eq, hC.mh, hC.links, hctr, hnowd', ?_, ?_, ?_, ?_⟩
     · intro g hg hgk
       have := hC.frames g (hsub g (hours g hg hgk)) hgk
       exact ⟨(hmk _).2 this.src, fun y hy => (hmk _).2 (this.seenBy y hy), this.dst, this.path, this.routes, this.sbNodup, this.sbRange, this.pathLen⟩
@@ -466,6 +660,10 @@ theorem conv_process {lk : Node → Node → Bool} {n o sq : Nat} {L : List RAd}
       rcases hseen_inv x _ hx with h | ⟨_, h⟩
       · exact hstored_old x h r hr hk
       · exact absurd h.symm hkey
+    · intro x hx r hr hk
+      rcases hseen_inv x _ hx with h | ⟨_, h⟩
+      · exact hstored_oldA x h r hr hk
+      · exact absurd h.symm hkey
 
 /-! ### the invariant along a stable schedule -/
 
@@ -475,12 +673,12 @@ theorem conv_step {lk : Node → Node → Bool} {n o sq : Nat} {L : List RAd} {s
   have hT : Conv lk n o sq L (tick s) :=
     ⟨hC.n_eq, hC.mh, hC.links, hC.ctr, hC.nowd,
       fun f hf hk => let h := hC.frames f hf hk; ⟨h.src, h.seenBy, h.dst, h.path, h.routes, h.sbNodup, h.sbRange, h.pathLen⟩,
-      hC.closed, hC.stored⟩
+      hC.closed, hC.stored, hC.storedA⟩
   cases op with
   | connect a b => cases hst
   | disconnect a b => cases hst
   | replay a b ord => cases hst
-  | withdraw a => cases hst
+  | withdraw a _ => cases hst
   | drop a b i => cases hst
   | expire a k q => cases hst
   | stale a age => cases hst
@@ -545,7 +743,13 @@ theorem conv_step {lk : Node → Node → Bool} {n o sq : Nat} {L : List RAd} {s
         rw [hk.1] at h1
         simp only [tick_nodes] at h1
         omega
-      refine ⟨hC.n_eq, hC.mh, hC.links, ?_, ?_, ?_, ?_, ?_⟩
+      have hag : ∀ x, ((setNode (tick s) c { (tick s).nodes c with
+          seq := ((tick s).nodes c).seq + (announceAdvs c ((tick s).nodes c) hint).length }).nodes x).agents
+          = (s.nodes x).agents := by
+        intro x; simp only [setNode_nodes]; split
+        · rename_i hx; subst hx; rfl
+        · rfl
+      refine ⟨hC.n_eq, hC.mh, hC.links, ?_, ?_, ?_, ?_, ?_, ?_⟩
       · show sq ≤ ((setNode (tick s) c _).nodes o).seq
         simp only [setNode_nodes]; split
         · rename_i hx; subst hx; exact Nat.le_trans hC.ctr (Nat.le_add_right _ _)
@@ -570,6 +774,9 @@ theorem conv_step {lk : Node → Node → Bool} {n o sq : Nat} {L : List RAd} {s
       · intro x hx r hr hk
         rw [hseen] at hx; rw [htab]
         exact hC.stored x hx r hr hk
+      · intro x hx r hr hk
+        rw [hseen] at hx; rw [hag]
+        exact hC.storedA x hx r hr hk
     · exact hT
 
 theorem conv_run {lk : Node → Node → Bool} {n o sq : Nat} {L : List RAd}
@@ -627,7 +834,7 @@ theorem conv_announce (s0 : Net) (o : Node) (hint : List (List RAd)) (m : Adv)
     rcases hx with hx | hx
     · exact hx
     · rw [hseen] at hx; exact absurd hx (hfresh x _ hA.seq_gt)
-  refine ⟨step_n _ _, (step_maxHops _ _).trans hmh, ?_, ?_, ?_, ?_, ?_, ?_⟩
+  refine ⟨step_n _ _, (step_maxHops _ _).trans hmh, ?_, ?_, ?_, ?_, ?_, ?_, ?_⟩
   · intro a b
     simp only [linked, step, stepCore]; rw [if_pos ho']; rfl
   · rw [MM.C14.announce_seq s0 o hint ho]; exact hA.seq_le
@@ -680,6 +887,8 @@ theorem conv_announce (s0 : Net) (o : Node) (hint : List (List RAd)) (m : Adv)
     exact List.mem_append_right _ (List.mem_flatMap.2 ⟨m, hm, List.mem_map.2 ⟨p, hpeer, rfl⟩⟩)
   · intro x hx
     rw [hseen] at hx; exact absurd hx (hfresh x _ hA.seq_gt)
+  · intro x hx
+    rw [hseen] at hx; exact absurd hx (hfresh x _ hA.seq_gt)
 
 /-- Agents connected to `o` by a path of links. -/
 inductive Reach (lk : Node → Node → Bool) (o : Node) : Node → Prop where
@@ -713,15 +922,17 @@ theorem C12_converges (s0 : Net) (o : Node) (hint : List (List RAd)) (ops : List
     (hquiet : ∀ f, f ∈ (run (step s0 (.announce o hint)) ops).flight → keyOf f ≠ (o, m.seq)) :
     ∀ x, Reach (linked s0) o x → x ≠ o →
       (o, m.seq) ∈ ((run (step s0 (.announce o hint)) ops).nodes x).seen ∧
-      ∀ r, r ∈ m.routes → r.kind ≠ 3 →
-        ∃ e, e ∈ ((run (step s0 (.announce o hint)) ops).nodes x).tab ∧ CopyOf o m.seq r e := by
+      (∀ r, r ∈ m.routes → r.kind ≠ 3 →
+        ∃ e, e ∈ ((run (step s0 (.announce o hint)) ops).nodes x).tab ∧ CopyOf o m.seq r e) ∧
+      (∀ r, r ∈ m.routes → r.kind = 3 →
+        ∃ e, e ∈ ((run (step s0 (.announce o hint)) ops).nodes x).agents ∧ CopyA o m.seq r.key e) := by
   intro x hx hxo
   have hC := conv_run hn255 hirr hrange _ ops
     (conv_announce s0 o hint m hm ho hmh hirr hrange hfresh hnoold hnowd) hst
   have hmk := conv_quiescent hC hquiet x hx
   rcases hmk with hmk | hmk
   · exact absurd hmk hxo
-  · exact ⟨hmk, hC.stored x hmk⟩
+  · exact ⟨hmk, hC.stored x hmk, hC.storedA x hmk⟩
 
 /-- Every local route of `o` travels in one of the advertisements, so when all of them have
     quiesced every connected agent holds every CIDR / domain / forward route `o` announces. -/
@@ -747,9 +958,37 @@ theorem C12_converges_all (s0 : Net) (o : Node) (hint : List (List RAd)) (ops : 
     have := hquiet f hf hkf.1
     have := hA.seq_gt
     omega
-  obtain ⟨_, h2⟩ := C12_converges s0 o hint ops m hm ho hn255 hmh hirr hrange hfresh hnoold hnowd hst hq x hx hxo
+  obtain ⟨_, h2, _⟩ := C12_converges s0 o hint ops m hm ho hn255 hmh hirr hrange hfresh hnoold hnowd hst hq x hx hxo
   obtain ⟨e, he, h1, h2', h3, h4⟩ := h2 r hrm hk
   exact ⟨e, he, h1, h2', h3, Nat.lt_of_lt_of_le hA.seq_gt h4⟩
+
+/-- The presence route: when all advertisements of the announcement have quiesced every connected
+    agent holds a presence route for `o` (so `o` is reachable by agent id from everywhere). -/
+theorem C12_converges_presence (s0 : Net) (o : Node) (hint : List (List RAd)) (ops : List Op)
+    (ho : o < s0.n) (hn255 : s0.n ≤ 255) (hmh : s0.maxHops = 0)
+    (hirr : ∀ x, linked s0 x x = false) (hrange : ∀ x p, linked s0 x p = true → p < s0.n)
+    (hfresh : ∀ x sq, (s0.nodes o).seq < sq → (o, sq) ∉ (s0.nodes x).seen)
+    (hnoold : ∀ f, f ∈ s0.flight → f.adv.origin = o → f.adv.seq ≤ (s0.nodes o).seq)
+    (hnowd : ∀ f, f ∈ s0.flight → f.adv.wd = false)
+    (hst : ∀ op, op ∈ ops → stable op = true)
+    (hquiet : ∀ f, f ∈ (run (step s0 (.announce o hint)) ops).flight →
+      f.adv.origin = o → f.adv.seq ≤ (s0.nodes o).seq) :
+    ∀ x, Reach (linked s0) o x → x ≠ o →
+      ∃ e, e ∈ ((run (step s0 (.announce o hint)) ops).nodes x).agents ∧
+        e.key = o ∧ e.origin = o ∧ (s0.nodes o).seq < e.seq := by
+  intro x hx hxo
+  obtain ⟨m, hm, hrm⟩ := announce_covers (self := o) (st := s0.nodes o) (hint := hint)
+    (r := { kind := 3, key := o, metric := 0 }) (List.mem_append_right _ List.mem_cons_self)
+  have hA := mem_announceAdvs hm
+  have hq : ∀ f, f ∈ (run (step s0 (.announce o hint)) ops).flight → keyOf f ≠ (o, m.seq) := by
+    intro f hf hkf
+    simp only [keyOf, Prod.mk.injEq] at hkf
+    have := hquiet f hf hkf.1
+    have := hA.seq_gt
+    omega
+  obtain ⟨_, _, h3⟩ := C12_converges s0 o hint ops m hm ho hn255 hmh hirr hrange hfresh hnoold hnowd hst hq x hx hxo
+  obtain ⟨e, he, h1, h2, h4⟩ := h3 _ hrm rfl
+  exact ⟨e, he, h1, h2, Nat.lt_of_lt_of_le hA.seq_gt h4⟩
 
 /-! ### the hypotheses hold after every history without third-party replays -/
 
@@ -801,7 +1040,7 @@ theorem linkWF_run (n mh : Nat) (L : Node → List RAd) (ops : List Op) :
 
 /-- Without `withdraw` ops no ROUTE_WITHDRAW frame is ever in flight. -/
 theorem nowd_run (s : Net) (ops : List Op) (h0 : ∀ f, f ∈ s.flight → f.adv.wd = false)
-    (hnw : ∀ op, op ∈ ops → ∀ a, op ≠ .withdraw a) :
+    (hnw : ∀ op, op ∈ ops → ∀ a h, op ≠ .withdraw a h) :
     ∀ f, f ∈ (run s ops).flight → f.adv.wd = false := by
   induction ops generalizing s with
   | nil => exact h0
@@ -811,7 +1050,7 @@ theorem nowd_run (s : Net) (ops : List Op) (h0 : ∀ f, f ∈ s.flight → f.adv
       cases flight_step hf with
       | old h => exact h0 f h
       | ann hint hop ha hd hadv => exact (mem_announceAdvs hadv).wd
-      | wdr hop ha hcidr hd hadv => exact absurd hop (hnw op List.mem_cons_self _)
+      | wdr hint hop ha hcidr hd hadv => exact absurd hop (hnw op List.mem_cons_self _ _)
       | fwd a m hm hl ha hb hd hne hns hself hseen hsb hlim hwire hadv =>
         rw [hadv, fwdAdv_wd]; exact h0 _ hm
       | rep ord hop ha hb hl hadv => exact (mem_replayAdvs hadv).wd
@@ -823,7 +1062,7 @@ theorem nowd_run (s : Net) (ops : List Op) (h0 : ∀ f, f ∈ s.flight → f.adv
 theorem C12_converges_run (n : Nat) (L : Node → List RAd) (pre ops : List Op) (o : Node)
     (hint : List (List RAd))
     (ho : o < n) (hn255 : n ≤ 255) (hb : benignRun (init n 0 L) pre = true)
-    (hnw : ∀ op, op ∈ pre → ∀ a, op ≠ .withdraw a)
+    (hnw : ∀ op, op ∈ pre → ∀ a h, op ≠ .withdraw a h)
     (hst : ∀ op, op ∈ ops → stable op = true)
     (hquiet : ∀ f, f ∈ (run (step (run (init n 0 L) pre) (.announce o hint)) ops).flight →
       f.adv.origin = o → f.adv.seq ≤ ((run (init n 0 L) pre).nodes o).seq) :
@@ -869,8 +1108,8 @@ def ringSched : List Op := [
   .deliver 2 3 0, .deliver 1 2 0, .deliver 3 2 0, .deliver 2 1 0, .deliver 2 3 0]
 
 example : benignRun (init 4 0 ringLocals) ringPre = true := by decide
-example : ∀ op, op ∈ ringPre → ∀ a, op ≠ .withdraw a := by
-  intro op hop a h; subst h; simp [ringPre] at hop
+example : ∀ op, op ∈ ringPre → ∀ a h, op ≠ .withdraw a h := by
+  intro op hop a h heq; subst heq; simp [ringPre] at hop
 example : ∀ op, op ∈ ringSched → stable op = true := by decide
 example : (run (step (run (init 4 0 ringLocals) ringPre) (.announce 0 [])) ringSched).flight.all
     (fun f => f.adv.origin != 0 || decide (f.adv.seq ≤ ((run (init 4 0 ringLocals) ringPre).nodes 0).seq)) = true := by
@@ -879,3 +1118,26 @@ example : (((run (step (run (init 4 0 ringLocals) ringPre) (.announce 0 [])) rin
     (fun e => (e.kind, e.key, e.origin, e.seq))) = [(0, 1, 0, 5), (1, 2, 0, 5)] := by decide
 
 end MM.C12
+
+namespace MM.C14
+open MM.C11 MM.C12
+
+/-- C14, "reaches each connected agent and renews its copy": after any history without
+    third-party replays and withdrawals (no hop limit, at most 255 agents), when origin `o`
+    announces and the frames of that announcement have all been delivered — under any order, any
+    duplication, any interleaving with other announcements — every agent connected to `o` holds, for
+    every route `o` advertises, a copy whose sequence number was issued by THIS announcement or a
+    later one (it is above `o`'s counter before the announcement). -/
+theorem C14_reaches_all (n : Nat) (L : Node → List RAd) (pre ops : List Op) (o : Node)
+    (hint : List (List RAd))
+    (ho : o < n) (hn255 : n ≤ 255) (hb : benignRun (init n 0 L) pre = true)
+    (hnw : ∀ op, op ∈ pre → ∀ a h, op ≠ .withdraw a h)
+    (hst : ∀ op, op ∈ ops → stable op = true)
+    (hquiet : ∀ f, f ∈ (run (step (run (init n 0 L) pre) (.announce o hint)) ops).flight →
+      f.adv.origin = o → f.adv.seq ≤ ((run (init n 0 L) pre).nodes o).seq) :
+    ∀ x, Reach (linked (run (init n 0 L) pre)) o x → x ≠ o → ∀ r, r ∈ L o → r.kind ≠ 3 →
+      ∃ e, e ∈ ((run (step (run (init n 0 L) pre) (.announce o hint)) ops).nodes x).tab ∧
+        e.kind = r.kind ∧ e.key = r.key ∧ e.origin = o ∧ ((run (init n 0 L) pre).nodes o).seq < e.seq :=
+  C12_converges_run n L pre ops o hint ho hn255 hb hnw hst hquiet
+
+end MM.C14
